@@ -11,7 +11,7 @@ PROPERTY = "C20"
 LEVEL = "exploration"
 RULE = ("cases = generated small-domain systems over a (2-4 bits), b (3-5 bits) and optionally c with constraints that "
         "make the number of b-companions depend on a (b <= a, a == v -> b == w, b in [a..a+k], unique, ...), an ordering "
-        "directive (single fields, lists of fields, chains a->b->c) and a variant P' in which b's companion counts are "
+        "directive (single fields, lists of fields, chains a->b->c; a fifth of the systems use an enum for a; a separate family puts a vsc list on the 'before' side and refills it between the draws of one object) and a variant P' in which b's companion counts are "
         "changed while feasible(a) is unchanged.  Oracle: (1) every free draw and two-directional pinned probes against "
         "the enumerated solution set (constraints hold, satisfiability unchanged); (2) pinning a to EACH feasible value must "
         "succeed and to each infeasible value must fail (no choice of a paints the solve into a corner); (3) when the hook "
@@ -287,15 +287,103 @@ def run_case(case, n_draws=3000):
     return [], info
 
 
+# ------------------------------------------------------------------------------------------------
+# family: a LIST on the 'before' side (solve_order(self.l, self.b)): every element is chosen before b, on the first call and
+# on every later call of the same object - also after the user refilled the list with the same number of elements
+LIST_SRC = """
+@vsc.randobj
+class T(object):
+    def __init__(self):
+        self.l = vsc.%(ctor)s
+        self.b = vsc.rand_bit_t(4)
+    @vsc.constraint
+    def c0(self):
+%(size)s        with vsc.foreach(self.l, idx=True) as i:
+            self.b <= self.l[i] * %(k)d + %(m)d
+        vsc.solve_order(self.l, self.b)
+"""
+
+
+@hyp.composite
+def list_cases(d):
+    return {"listorder": True, "n": d.randint(2, 3), "k": d.randint(1, 4), "m": d.randint(0, 2),
+            "refill": d.choice(["none", "same", "same", "randsz"]), "dseed": d.seed()}
+
+
+def list_source(case):
+    if case["refill"] == "randsz":
+        return LIST_SRC % {"ctor": "randsz_list_t(vsc.bit_t(2))", "k": case["k"], "m": case["m"],
+                           "size": "        self.l.size == %d\n" % case["n"]}
+    return LIST_SRC % {"ctor": "rand_list_t(vsc.bit_t(2), sz=%d)" % case["n"], "k": case["k"], "m": case["m"], "size": ""}
+
+
+def run_list(case, n_draws):
+    import enum as _enum
+    from ..core.util import import_vsc
+    vsc = import_vsc()
+    info = {"precondition": False}
+    if case.get("refill") not in ("none", "same", "randsz") or not isinstance(case.get("n"), int) or not 2 <= case["n"] <= 3:
+        return [], info
+    src = list_source(case)
+    text = src + "# %d draws on ONE object; between the draws: %s" % (n_draws, {"none": "nothing", "same": "l.clear() and as many appends",
+                                                                                  "randsz": "nothing (a random-size list re-creates its elements itself)"}[case["refill"]])
+    reset_library()
+    try:
+        ns = {"vsc": vsc, "enum": _enum}
+        exec(compile(src, "<pvs-c20-list>", "exec"), ns)
+        o = ns["T"]()
+        o.set_randstate(flat.mk_randstate(case["dseed"]))
+        n = case["n"]
+        hs = [dict() for _ in range(n)]
+        k, m = case["k"], case["m"]
+        for _ in range(n_draws):
+            if case["refill"] == "same":
+                o.l.clear()
+                for _j in range(n):
+                    o.l.append(0)
+            o.randomize()
+            vals = [int(x) for x in o.l]
+            if len(vals) != n or any(int(o.b) > v * k + m for v in vals):
+                return [{"property": PROPERTY, "kind": "unsound_value", "detail": "ordered system over a list", "case": case,
+                         "text": text + "\n# returned l=%s b=%d" % (vals, int(o.b))}], info
+            for j, v in enumerate(vals):
+                hs[j][v] = hs[j].get(v, 0) + 1
+    except Exception as e:
+        ei = flat.defuse(e)
+        reset_library()
+        return [{"property": PROPERTY, "kind": "library_exception", "detail": "ordered system over a list: " + ei.sig, "case": case,
+                 "text": text + "\n# %r" % (ei,)}], info
+    # every element value 0..3 is feasible (b = 0 accompanies it) and is steered over exactly 0..3: uniform marginals; the
+    # companion counts min(15, v*k+m)+1 differ between the values
+    info["precondition"] = True
+    info["skew"] = (min(15, 3 * k + m) + 1) / float(min(15, m) + 1)
+    for j in range(n):
+        bad, worst = uniform_check(hs[j], [0, 1, 2, 3], n_draws)
+        if bad:
+            return [{"property": PROPERTY, "kind": "not_uniform", "detail": "an element of a list on the 'before' side is not uniform over its feasible values",
+                     "case": case, "text": text + "\n# element %d: value %d seen %d times (expected %.1f), tail e^%.1f; histogram %s"
+                     % (j, bad[0], bad[1], n_draws / 4.0, bad[2], sorted(hs[j].items()))}], info
+    return [], info
+
+
 def shards(tier):
     return [{"i": i, "n": 4 if tier == "quick" else 120} for i in range(16)] + \
-        [{"i": 16 + i, "n": 4 if tier == "quick" else 60, "force": "const_middle"} for i in range(2)]
+        [{"i": 16 + i, "n": 4 if tier == "quick" else 60, "force": "const_middle"} for i in range(2)] + \
+        [{"i": 18 + i, "n": 3 if tier == "quick" else 60, "kind": "list"} for i in range(2)]
 
 
 def run_shard(spec, seed, tier, acc):
     nd = 1500 if tier == "quick" else 12000
 
     def body(case, acc):
+        if case.get("listorder"):
+            vios, info = run_list(case, nd)
+            acc.case(case, info.get("precondition") and info.get("skew", 1) >= 4, sample=list_source(case))
+            acc.label("family: a list on the 'before' side (refill: %s)" % case["refill"])
+            if info.get("precondition"):
+                acc.label("uniformity tested")
+                acc.label("draws", nd)
+            return vios
         vios, info = run_case(case, nd)
         nt = info.get("precondition") and info.get("skew", 1) >= 4
         acc.case(case, bool(nt), sample=E.text_of(case))
@@ -313,8 +401,10 @@ def run_shard(spec, seed, tier, acc):
         nord = len([s for s in flat.cls_of(case["prog"])["blocks"][0]["stmts"] if s[0] == "order"])
         acc.label("order directives:%d" % nord)
         return vios
-    hyp.drive(cases(force=spec.get("force")), body, seed, spec["n"], acc, shrink=False)
+    hyp.drive(list_cases() if spec.get("kind") == "list" else cases(force=spec.get("force")), body, seed, spec["n"], acc, shrink=False)
 
 
 def replay(case):
+    if case.get("listorder"):
+        return run_list(case, 3000)[0]
     return run_case(case)[0]
